@@ -276,7 +276,8 @@ def rand_emissions(rng, need_nox=False):
         sp.append("NOX")
     for s in sp:
         n = rng.choice([1, 2, 3])
-        loads = sorted(rng.sample([Fraction(1, 10), Fraction(1, 4), Fraction(1, 2), Fraction(3, 4), Fraction(1)], n))
+        loads = sorted(rng.sample([Fraction(1, 10), Fraction(1, 4), Fraction(1, 2), Fraction(3, 4), Fraction(1),
+                                   Fraction(11, 10), Fraction(5, 4)], n))      # overload points (110 %, 125 %) included
         em[s] = [[l, Fraction(rng.randint(1, 80), 16)] for l in loads]
     return em
 
